@@ -527,6 +527,8 @@ def parse_operand(mnem, text, symvals):
                 return {"form": "regpair", "regs": regs}
             return None
         if "REL8" in modes or "REL16" in modes:
+            if text[:1] in ("#", "<", ">") and parse_expr(text[1:], symvals):
+                return {"form": "nomode", "why": "addressing-mode prefix on a branch target"}
             e = parse_expr(text, symvals) if text else None
             if not e:
                 return None
@@ -549,6 +551,11 @@ def parse_operand(mnem, text, symvals):
                 return None
             inner = text[1:-1]
             ind = True
+            if inner[:1] == "#":
+                rest = inner[1:]
+                if parse_expr(rest, symvals) or _re.match(r"^[^,\[\]#<>]+,((--?)?[XYUS](\+\+?)?|PCR)$", rest):
+                    return {"form": "nomode", "why": "immediate sign inside brackets"}
+                return None
             if "," not in inner:
                 e = parse_expr(inner, symvals)
                 return {"form": "extind", "value": e[0], "nterms": e[1]} if e else None
